@@ -56,13 +56,16 @@ class GenericBackendSystem(ListeningSystem):
         self.failure = False
 
     def system_stop(self):
+        self._cancel_timers()
+        return super().system_stop()
+
+    def _cancel_timers(self):
         if self._startID:
             self._startID.cancel()
             self._startID.join()
         if self._stopID:
             self._stopID.cancel()
             self._stopID.join()
-        return super().system_stop()
 
     def _set_default(self):
         self.msg = ''
@@ -220,7 +223,7 @@ class GenericBackendSystem(ListeningSystem):
     def _start_at(self, timestamp):
         if timestamp < time.time():
             raise BackendError("starting time already elapsed")
-        if self._waiting_for_start_time:
+        if self._startID:
             self._startID.cancel()
         self._waiting_for_start_time = True
         start_in = timestamp - time.time()
@@ -237,7 +240,7 @@ class GenericBackendSystem(ListeningSystem):
     def _stop_at(self, timestamp):
         if timestamp < time.time():
             raise BackendError("stop time already elapsed")
-        if self._waiting_for_stop_time:
+        if self._stopID:
             self._stopID.cancel()
         self._waiting_for_stop_time = True
         stop_in = timestamp - time.time()
